@@ -1070,8 +1070,9 @@ class PsiFuncEventSelectionMethod(
             selected_events_idxs = events.indices[mask]
             selected_events = events[selected_events_idxs]
 
-        # Get selected events indices.
-        idxs = np.argwhere(np.atleast_2d(mask))
+        # Get selected events indices. The event indices must point into the
+        # selected events.
+        idxs = np.argwhere(np.atleast_2d(mask)[:, mask])
         src_idxs = idxs[:, 0]
         evt_idxs = idxs[:, 1]
 
